@@ -112,6 +112,9 @@ def gen_history(rng, nops):
                 # offset beyond the contents and offset+len just inside INT_MAX: passes the argument check, must be refused when the buffer would have to grow
                 off = rng.choice([40, 100, 5000])
                 ops.append("PB set a %d 65 la %d" % (off, INT_MAX - off - rng.choice([0, 1, 3, 7])))
+    if any(o.startswith("PB app a") and int(o.split()[3]) >= 66000 for o in ops[:3]):
+        # big-buffer histories: no self-formatting afterwards (it doubles tens of megabytes; the byte-array model is kept below 64 MiB)
+        ops = [o for o in ops if not o.startswith("PB fmts")]
     if rng.random() < 0.35:
         # an allocation failure inside one operation (realloc in printbuf_extend, vasprintf in sprintbuf's long path): the operation
         # must fail with the buffer exactly as it was, still terminated
